@@ -234,43 +234,50 @@ def ints (v : List Char) : List (Nat × Nat) → Except Exc (List Int)
 def fields (v : List Char) (sl : List (Nat × Nat)) : Except Exc (Option DateTime) :=
   (ints v sl).bind fun xs => (mkDatetime xs).bind fun dt => .ok (some dt)
 
-/-- `value[10] not in ("T", " ") and value[13] != ":"` with Python's short-circuit evaluation. -/
+/-- Python's short-circuit `a and b` / `a or b` where only `b` can raise. -/
+def shortCircuit (joinAnd : Bool) (a : Bool) (b : Except Exc Bool) : Except Exc Bool :=
+  if joinAnd then (if a then b else .ok false) else (if a then .ok true else b)
+
+/-- `value[4] != "-" or value[7] != "-"`: the generated operand tests, the generated operator,
+the second subscript only read when the first operand does not decide. -/
+def dashReject (v : List Char) : Except Exc Bool :=
+  (idx v Gen.Iso.dashA).bind fun c4 =>
+    shortCircuit Gen.Iso.dashJoinAnd (decide (Gen.Iso.dashTestA c4))
+      ((idx v Gen.Iso.dashB).bind fun c7 => .ok (decide (Gen.Iso.dashTestB c7)))
+
+/-- `value[10] not in ("T", " ") and value[13] != ":"` (generated operands and operator). -/
 def sepReject (v : List Char) : Except Exc Bool :=
   (idx v Gen.Iso.sepIdx).bind fun c10 =>
-    let badSep := !Gen.Iso.sepChars.contains c10
-    if Gen.Iso.sepJoinAnd then
-      (if badSep then (idx v Gen.Iso.colonA).bind fun c13 => .ok (c13 != Gen.Iso.colonAChar) else .ok false)
-    else
-      (if badSep then .ok true else (idx v Gen.Iso.colonA).bind fun c13 => .ok (c13 != Gen.Iso.colonAChar))
+    shortCircuit Gen.Iso.sepJoinAnd (decide (Gen.Iso.sepTestA c10))
+      ((idx v Gen.Iso.colonA).bind fun c13 => .ok (decide (Gen.Iso.sepTestB c13)))
 
-/-- `val_len >= 19 and value[16] == ":"` -/
+/-- `val_len >= 19 and value[16] == ":"` (generated operands; `and` asserted by the extractor). -/
 def hasSeconds (v : List Char) : Except Exc Bool :=
-  if v.length ≥ Gen.Iso.lenSecGe then (idx v Gen.Iso.colonB).bind fun c16 => .ok (c16 == Gen.Iso.colonBChar)
-  else .ok false
+  shortCircuit true (decide (Gen.Iso.secLenTest v.length))
+    ((idx v Gen.Iso.colonB).bind fun c16 => .ok (decide (Gen.Iso.secCharTest c16)))
 
-/-- After the `Z` strip and the `+` split: lines 742-776. -/
+/-- After the `Z` strip and the `+` split: lines 742-776.  Control flow by hand, every test a
+generated expression. -/
 def shaped (v : List Char) : Except Exc (Option DateTime) :=
-  (idx v Gen.Iso.dashA).bind fun c4 =>
-  if c4 ≠ Gen.Iso.dashAChar then .ok none else
-  (idx v Gen.Iso.dashB).bind fun c7 =>
-  if c7 ≠ Gen.Iso.dashBChar then .ok none else
-  if v.length = Gen.Iso.lenDate then fields v Gen.Iso.slicesDate
-  else if v.length ≥ Gen.Iso.lenTimeGe then
+  (dashReject v).bind fun rej =>
+  if rej then .ok none else
+  if Gen.Iso.dateLenTest v.length then fields v Gen.Iso.slicesDate
+  else if Gen.Iso.timeLenTest v.length then
     (sepReject v).bind fun reject =>
     if reject then .ok none else
     (hasSeconds v).bind fun secs =>
     if secs then fields v Gen.Iso.slicesSec
-    else if v.length = Gen.Iso.lenMinEq then fields v Gen.Iso.slicesMin
+    else if Gen.Iso.minLenTest v.length then fields v Gen.Iso.slicesMin
     else .ok none
   else .ok none
 
 /-- Lines 734-741: length window, trailing `Z`, the `+` split and its second window. -/
 def textPath (v0 : List Char) : Except Exc (Option DateTime) :=
-  if Gen.Iso.lenLo ≤ v0.length ∧ v0.length ≤ Gen.Iso.lenHi then
+  if Gen.Iso.lenWindow v0.length then
     let v1 := if v0.getLast? = some Gen.Iso.zChar then v0.dropLast else v0
     if v1.contains Gen.Iso.plusChar then
       let v2 := v1.takeWhile (· != Gen.Iso.plusChar)
-      if ¬ (Gen.Iso.plusLo ≤ v2.length ∧ v2.length ≤ Gen.Iso.plusHi) then .ok none
+      if Gen.Iso.plusReject v2.length then .ok none
       else shaped v2
     else shaped v1
   else .ok none
@@ -286,6 +293,7 @@ inductive Input where
   | bytes (b : List UInt8)    -- `bytes` or a subclass
   | date (y m d : Nat)        -- exactly `datetime.date`
   | datetime (dt : DateTime)  -- exactly `datetime.datetime`
+  | time (H M S us : Nat)     -- a `datetime.time` (None for the parser; the TIME cast keeps it)
   | other                     -- any other object without `to_pydatetime`
   deriving Repr
 
@@ -304,6 +312,7 @@ def strBody (s : List Char) : Except Exc (Option DateTime) :=
 /-- The body of the `try`. -/
 def body : Input → Except Exc (Option DateTime)
   | .other => .ok none
+  | .time .. => .ok none
   | .date y m d => .ok (some ⟨y, m, d, 0, 0, 0, 0⟩)
   | .datetime dt => .ok (some { dt with micro := 0 })
   | .int n => epoch "int" (.ok n)
@@ -339,15 +348,20 @@ inductive CastOut where
   | raises (e : Exc)
   deriving DecidableEq, Repr
 
+/-- `parse_time` returns a value that already is a `datetime.time` unchanged (types.py, the
+`isinstance(x, datetime.time)` test) before it consults the parser. -/
 def cast (k : CastKind) (i : Input) : CastOut :=
-  match parseIso i with
-  | .raises e => .raises e
-  | .none => .raises .valueError
-  | .value dt =>
-    match k with
-    | .date => .date dt.year dt.month dt.day
-    | .time => .time dt.hour dt.minute dt.second dt.micro
-    | .timestamp => .timestamp dt
+  match k, i with
+  | .time, .time H M S us => .time H M S us
+  | _, _ =>
+    match parseIso i with
+    | .raises e => .raises e
+    | .none => .raises .valueError
+    | .value dt =>
+      match k with
+      | .date => .date dt.year dt.month dt.day
+      | .time => .time dt.hour dt.minute dt.second dt.micro
+      | .timestamp => .timestamp dt
 
 /-! ## Canonical renderings -/
 
